@@ -18,7 +18,7 @@ VARIABLES l,        \* next line
           ffBuf,    \* stream of the fail file being tried
           topInv,   \* harness id of the property-function invocation in progress
           runlog,   \* per invocation of this run: <<kind, stream id, draws, error class, site>>
-          prev,     \* summary of the previous run of the scenario (cross-run properties)
+          prev,     \* summaries of the earlier runs of the scenario (cross-run properties)
           runinfo   \* run.begin record of the current run
 
 tvars == <<l, scen, ffBuf, topInv, runlog, prev, runinfo>>
@@ -37,7 +37,7 @@ Err(e) == [class |-> e.class, site |-> e.site, msg |-> e.msg]
 
 Verdicts == IF Property = "ALL" THEN UNION { VerdictOf[p] : p \in DOMAIN VerdictOf } ELSE VerdictOf[Property]
 
-NoPrev == [valid |-> FALSE]
+NoPrev == <<>>
 NoRun == [run |-> 0]
 
 Init ==
@@ -80,6 +80,8 @@ RunBegin ==
   /\ UNCHANGED <<scen, prev>>
 
 \* (the base seed is logged here: without -rapid.seed it is random and not known from the flags)
+\* a file the harness's own reader cannot parse, or of another version, must be ignored
+MustIgnore(file) == \E i \in 1..Len(runinfo.files) : runinfo.files[i].path = file /\ (~runinfo.files[i].ok \/ runinfo.files[i].version # scen.version)
 FFList ==
   /\ Is("h.failfiles") /\ Adv
   /\ Do(V_FFList(Ev.files), E_FFList(Ev.files, Ev.baseSeed.l))
@@ -87,7 +89,8 @@ FFList ==
 
 FFLoad ==
   /\ Is("h.ff.load") /\ Adv
-  /\ LET usable == Ev.ok /\ Ev.sameVersion IN Do(V_FFLoad(Ev.file, usable), E_FFLoad(Ev.file, usable))
+  /\ LET usable == Ev.ok /\ Ev.sameVersion IN
+       Do(V_FFLoad(Ev.file, usable) \cup If(usable /\ MustIgnore(Ev.file), "unusable_file_used"), E_FFLoad(Ev.file, usable))
   /\ ffBuf' = IF Ev.ok THEN BufStream(Ev.buf) ELSE NoStream
   /\ UNCHANGED <<scen, topInv, runlog, prev, runinfo>>
 
@@ -100,7 +103,7 @@ Phase ==
                 [] k \in {"capture", "final"} -> BufStream(Ev.buf)
                 [] OTHER -> NoStream
          sd == IF k \in {"gen", "repro"} THEN Ev.seed.l ELSE seed
-     IN Do(V_Begin(k, s, sd), E_Begin(k, s, sd))
+     IN Do(V_Begin(k, s, sd) \cup If(k \in {"ff1", "ff2"} /\ MustIgnore(Ev.file), "unusable_file_used"), E_Begin(k, s, sd))
   /\ UNCHANGED <<scen, ffBuf, topInv, runlog, prev, runinfo>>
 
 OnceBegin == /\ Is("h.once.begin") /\ Adv /\ EUnch /\ viol' = viol /\ UNCHANGED <<scen, ffBuf, topInv, runlog, prev, runinfo>>
@@ -231,38 +234,41 @@ GenLog(lg) == SelectSeq(lg, LAMBDA x : x[1] = "gen")
 FirstFail(lg) == LET fs == SelectSeq(lg, LAMBDA x : x[1] \in {"gen", "ff1"} /\ x[4] \in {"stop", "panic"}) IN IF fs = <<>> THEN <<>> ELSE fs[1]
 Strip(lg) == [i \in 1..Len(lg) |-> <<lg[i][1], lg[i][3], lg[i][4]>>]
 
+\* the run an expectation refers to: runinfo.expectRun (1-based), by default the previous one
+RefRun == IF runinfo.expectRun > 0 /\ runinfo.expectRun <= Len(prev) THEN prev[runinfo.expectRun] ELSE prev[Len(prev)]
+
 V_CrossRun(failed) ==
-  IF ~prev.valid THEN {}
-  ELSE
+  IF prev = <<>> \/ runinfo.expect = "" THEN {}
+  ELSE LET pr == RefRun IN
     \* the run after a persisted failure, with no flags: the fail file is found and replayed first
     (IF runinfo.expect = "replay_prev"
-     THEN If(mon.firstKind # "ff1" \/ mon.firstStream.id # prev.buf.id, "replay_not_first")
-          \cup If(~(rep.kind = prev.rep.kind /\ rep.valid = 0 /\ rep.msg = prev.rep.msg), "replay_differs")
-          \cup If(mon.finalObs.draws # prev.finalDraws, "replay_differs")
+     THEN If(mon.firstKind # "ff1" \/ mon.firstStream.id # pr.buf.id, "replay_not_first")
+          \cup If(~(rep.kind = pr.rep.kind /\ rep.valid = 0 /\ rep.msg = pr.rep.msg), "replay_differs")
+          \cup If(mon.finalObs.draws # pr.finalDraws, "replay_differs")
      ELSE {})
     \* -rapid.seed=<printed seed>: the very first test case is the originally failing one
     \cup (IF runinfo.expect = "seed_prev"
-     THEN If(~(Len(runlog) > 0 /\ runlog[1][1] = "gen" /\ runlog[1][3] = prev.failDraws /\ runlog[1][4] \in {"stop", "panic"}), "seed_replay_differs")
-          \cup If(~(rep.kind = prev.rep.kind /\ (rep.valid = 0 \/ rep.kind = "flaky")), "seed_replay_differs")
+     THEN If(~(Len(runlog) > 0 /\ runlog[1][1] = "gen" /\ runlog[1][3] = pr.failDraws /\ runlog[1][4] \in {"stop", "panic"}), "seed_replay_differs")
+          \cup If(~(rep.kind = pr.rep.kind /\ (rep.valid = 0 \/ rep.kind = "flaky")), "seed_replay_differs")
      ELSE {})
     \* same fixed seed, same property: the whole run is identical
     \cup (IF runinfo.expect = "same_run"
-     THEN If(Strip(runlog) # Strip(prev.runlog), "seed_run_differs")
-          \cup If(rep.kind # prev.rep.kind \/ rep.valid # prev.rep.valid \/ rep.msg # prev.rep.msg, "seed_run_differs")
-          \cup If(buf.id # prev.buf.id, "seed_run_differs")
+     THEN If(Strip(runlog) # Strip(pr.runlog), "seed_run_differs")
+          \cup If(rep.kind # pr.rep.kind \/ rep.valid # pr.rep.valid \/ rep.msg # pr.rep.msg, "seed_run_differs")
+          \cup If(buf.id # pr.buf.id, "seed_run_differs")
      ELSE {})
     \* unusable fail files present: same random test cases and same verdict as without them
-    \cup (IF runinfo.expect = "same_as_clean"
-     THEN If(Strip(GenLog(runlog)) # Strip(GenLog(prev.runlog)), "ff_changed_cases")
-          \cup If(rep.kind # prev.rep.kind \/ failed # prev.failed, "ff_changed_verdict")
+    \cup (IF runinfo.expect = "same_as_clean" /\ ~mon.fromFF
+     THEN If(Strip(GenLog(runlog)) # Strip(GenLog(pr.runlog)), "ff_changed_cases")
+          \cup If(rep.kind # pr.rep.kind \/ failed # pr.failed, "ff_changed_verdict")
      ELSE {})
 
 RunEnd ==
   /\ Is("run.end") /\ Adv
   /\ viol' = viol \cup (IF runinfo.entry = "makecheck" THEN V_RunEndNoTB(Ev.failed) ELSE V_RunEnd(Ev.failed, Ev.failnow)) \cup V_CrossRun(Ev.failed)
                   \cup If(Ev.how = "panic", "check_crashed")
-  /\ prev' = [valid |-> TRUE, rep |-> rep, buf |-> buf, finalDraws |-> mon.finalObs.draws, failDraws |-> mon.failDraws,
-              runlog |-> runlog, failed |-> Ev.failed, savedFile |-> mon.savedFile, fromFF |-> mon.fromFF]
+  /\ prev' = Append(prev, [valid |-> TRUE, rep |-> rep, buf |-> buf, finalDraws |-> mon.finalObs.draws, failDraws |-> mon.failDraws,
+              runlog |-> runlog, failed |-> Ev.failed, savedFile |-> mon.savedFile, fromFF |-> mon.fromFF])
   /\ pc' = "ended"
   /\ UNCHANGED <<cfg, ffq, ff, pend, valid, invalid, seed, cur, flag, e1, e2, buf, best, orig, sErr, cache, shrinks, rep, tbFailed, tbFailNow, mon>>
   /\ UNCHANGED <<scen, ffBuf, topInv, runlog, runinfo>>
